@@ -1,6 +1,6 @@
 # C02 - no lost, early or duplicate wake-up of a future's waiters
 import re
-from ..core import norm, relloc, live, calls, evs, Broken, value_origin, Tracer, fmt_trace, rooted, tests, cond_event
+from ..core import norm, relloc, live, calls, evs, Broken, value_origin, Tracer, fmt_trace, rooted, tests, cond_event, pos
 from .. import atomic, publish
 from ..rules import *
 from . import shared
@@ -62,7 +62,10 @@ def subscribe_protocol(ctx, db, rid='C02.subscribe-protocol'):
         allev = {(it.get('fn'), it.get('id')): it for tr in trs for it in evs(tr) if it.k == 'call'}
         cas = [e for e in allev.values() if atomic.is_atomic_call(e) and atomic.opname(e).startswith('compare_exchange')]
         others = [e for e in allev.values() if atomic.is_atomic_call(e) and atomic.objname(e) == 'param:chain' and atomic.opname(e) in ('store', 'exchange', 'operator=', 'fetch_add')]
-        ok1 = len(cas) >= 1 and not others and all(len(c.get('args', [])) >= 2 and c['args'][1].get('path') == 'this' and c['args'][0].get('path') == 'this->_next' for c in cas)
+        # expected = _next: the expected argument is _next itself, or a location whose value _next was assigned from since that location was
+        # last (re)loaded - either way _next holds the expected value at the attempt, so on success it is the link to the previous top
+        ok1 = len(cas) >= 1 and not others and all(len(c.get('args', [])) >= 2 and c['args'][1].get('path') == 'this' for c in cas) and \
+            all(_expected_is_next(tr) for tr in trs)
         ctx.ob(rid, f, f['key'], ok1, 'the only write to the chain is compare_exchange(expected=_next, desired=this)', desc='slot written other than by CAS(_next,this)')
         bad_true = None; bad_false = None; bad_cmp = None; bad_reset = None; nfalse = 0; ntrue = 0
         for tr in trs:
@@ -85,7 +88,9 @@ def subscribe_protocol(ctx, db, rid='C02.subscribe-protocol'):
                         bad_false = tr
                     else:
                         after = tr[brs[-1][0]:]
-                        cmpb = [it for it in after if it.k == 'branch' and 'param:ready_state' in (it.path or '') and 'this->_next' in (it.path or '')]
+                        # the observed value is what the failed attempt left in its expected argument (_next in the plain spelling)
+                        seen_in = next(((c.get('args') or [{}])[0].get('path') for c in reversed(cas_tr) if tests(brs[-1][1], c)), None) or 'this->_next'
+                        cmpb = [it for it in after if it.k == 'branch' and 'param:ready_state' in (it.path or '') and _mentions(it.path or '', seen_in)]
                         if not cmpb or not _is_equal_true(cmpb[-1]):
                             bad_cmp = tr
                         wr = [it for it in after if it.k == 'write' and it.get('path') == 'this->_next']
@@ -173,6 +178,29 @@ def await_suspend_siblings(ctx, db, rid='C02.await-suspend-siblings'):
         raise Broken('both forms of co_awaiter::await_suspend must be instantiated (found %d)' % n)
 
 
+def _mentions(expr, path):
+    """does the expression text contain the access path `path` as a whole operand (local:w does not occur in local:waiting)"""
+    return bool(path) and re.search(r'(?<![\w:>.])' + re.escape(path) + r'(?![\w#]|->|\.)', expr or '') is not None
+
+
+def _expected_is_next(tr):
+    """at every publishing CAS on the chain of this trace the expected argument holds what _next holds: it is this->_next itself, or
+    _next was assigned from it after it was last written / reloaded by a failed attempt (the same bookkeeping as link_current)"""
+    fresh = {}
+    for it in tr:
+        if it.k == 'write' and (it.get('path') or '') == 'this->_next':
+            fresh = {(it.get('rhs') or ''): True}
+        elif it.k == 'write' and re.fullmatch(r'local:\w+(#\d+)?', it.get('path') or ''):
+            fresh.pop(it['path'], None)
+        elif it.k == 'call' and atomic.is_atomic_call(it) and atomic.opname(it).startswith('compare_exchange'):
+            a = it.get('args') or [{}]
+            exp = a[0].get('path') or ''
+            if exp != 'this->_next' and not fresh.get(exp):
+                return False
+            fresh.pop(exp, None)
+    return True
+
+
 def _is_equal_true(br):
     p = br.path or ''
     if ' == ' in p:
@@ -186,13 +214,27 @@ def resolve_one_rmw(ctx, db, rid='C02.resolve-one-rmw'):
     rid = ctx.rule(rid, 'ATOMIC+WHO', 'resume_chain_set_ready / resume_chain detach the chain with exactly one exchange whose result flows only into resume_chain_lk; '
                    'resume_chain_set_ready installs the ready marker; the slot of a future is written only by the tabled functions', floor=3)
     for name, newval in (('cocls::awaiter::resume_chain_set_ready', '&(param:ready_state)'), ('cocls::awaiter::resume_chain', 'nullptr')):
-        for f in _keys(db, name):
-            ops = [e for e in f.events() if e.k == 'call' and atomic.is_atomic_call(e) and atomic.objname(e) == 'param:chain']
-            ok = len(ops) == 1 and atomic.opname(ops[0]) == 'exchange' and (ops[0].get('args') or [{}])[0].get('path') == newval
-            ctx.ob(rid, f, f['key'], ok, 'one exchange on the chain installing %s (found %s)' % (newval, ['%s(%s)' % (atomic.opname(o), (o.get('args') or [{}])[0].get('path')) for o in ops]),
+        _keys(db, name)
+        # judged on the helper-expanded paths: the exchange may sit in a private helper of the class (with the installed value and the order
+        # handed down), the installed value may have a name; what counts is what is done to the chain on every path through the function
+        for f, trs in traces_of(db, name, per_instance=False):
+            trs = [t for t in trs if live(t)]
+            ok = bool(trs); found = None; flow = None; site = None
+            for tr in trs:
+                ops = [(i, it) for i, it in enumerate(tr) if it.k == 'call' and atomic.is_atomic_call(it) and atomic.objname(it) == 'param:chain']
+                vals = [_installed(tr, i, o) for i, o in ops]
+                good = len(ops) == 1 and atomic.opname(ops[0][1]) == 'exchange' and vals[0] == newval
+                if found is None or (ok and not good):
+                    found = ['%s(%s)' % (atomic.opname(o), v) for (i, o), v in zip(ops, vals)]
+                ok = ok and good
+                if ops:
+                    site = site or ops[0][1].get('loc')
+                    fl = _handed_to_walker(db, tr, ops[0][1])
+                    flow = fl if flow is None else (flow and fl)
+            ctx.ob(rid, f, f['key'], ok, 'one exchange on the chain installing %s (found %s)' % (newval, found or []),
                    desc='chain not detached by a single exchange')
-            if ops:
-                ctx.ob(rid, f, ops[0]['loc'], flows_only_into(f, ops[0], 'cocls::awaiter::resume_chain_lk'), 'the detached chain is handed to resume_chain_lk and nothing else', desc='detached chain not handed to the walker')
+            if site:
+                ctx.ob(rid, f, site, bool(flow), 'the detached chain is handed to resume_chain_lk and nothing else', desc='detached chain not handed to the walker')
     # future::resolve hands the slot to resume_chain_set_ready on every path and does nothing else with it (no "nobody waits" fast path:
     # a waiter whose CAS lands between a load and a store of the slot is accepted and then overwritten)
     for f, trs in traces_of(db, 'cocls::future::resolve', per_instance=False):
@@ -215,6 +257,53 @@ def resolve_one_rmw(ctx, db, rid='C02.resolve-one-rmw'):
             return True
         return False
     check_who(ctx, rid, who(db, pred), SLOT_WRITERS, 'write of a future\'s awaiter slot', db=db)
+
+
+def _installed(tr, i, op):
+    """the value an atomic write (exchange / store) at position i of a trace installs, followed back through named locals"""
+    a = (op.get('args') or [{}])[0]
+    p = a.get('path')
+    v = origin_in_trace(tr, i, p)[0] or p
+    if v in ('0', 'ctor(nullptr)') or (v is None and a.get('const') == 0):
+        v = 'nullptr'
+    return v
+
+
+def _raw_event(db, it):
+    """(function instance, event of its body) behind an item of a trace"""
+    for g in db.instances(it['fn']) if it.get('fn') in db.inst else []:
+        e = g.ev(it.get('id'))
+        if e is not None and e.k == it.k and e.get('loc') == it.get('loc') and e.get('callee') == it.get('callee'):
+            return g, e
+    return None, None
+
+
+def _handed_to_walker(db, tr, it, walker='cocls::awaiter::resume_chain_lk'):
+    """does the value computed by the trace item `it` flow only into the chain walker: directly as its argument, through one local used for
+    nothing else, or - computed inside an expanded helper that returns it - by way of the helper's result in the helper's caller"""
+    for _ in range(4):
+        g, e = _raw_event(db, it)
+        if e is None:
+            return False
+        if flows_only_into(g, e, walker):
+            return True
+        if (e.get('use') or '') != 'return' or not it.get('depth'):
+            return False
+        # returned by a helper: the value is the result of the call that was expanded around this item
+        skip = 0; up = None
+        for x in reversed(tr[:pos(tr, it)]):
+            if x.k == 'leave' and x.get('depth') == it['depth'] - 1:
+                skip += 1
+            elif x.k == 'enter' and x.get('depth') == it['depth'] - 1:
+                if skip == 0:
+                    up = x.ev; break
+                skip -= 1
+        if up is None:
+            return False
+        it = next((x for x in tr if x.k == 'call' and x.get('expanded') and x.get('id') == up.get('id') and x.get('fn') == up.get('fn') and x.get('depth') == up.get('depth')), None)
+        if it is None:
+            return False
+    return False
 
 
 def _keys(db, name):
@@ -319,7 +408,8 @@ def result_used(ctx, db, rid, family, floor=8, only=None):
                 v = 'local:' + use[5:]
                 tag = 'call(%s)' % e.get('callee')
                 ok = any((b.get('cond') or {}).get('path') and (v in b['cond']['path'] or tag in b['cond']['path']) for b in f['blocks']) or \
-                    any(r.k == 'return' and (v in (r.get('path') or '') or tag in (r.get('path') or '')) for r in f.events())
+                    any(r.k == 'return' and (v in (r.get('path') or '') or tag in (r.get('path') or '')) for r in f.events()) or \
+                    _flag_tested(f, v, returned=True)
                 how = 'bound to %s and %s' % (v, 'tested' if ok else 'never tested')
             elif use.startswith('assign:'):
                 tgt = use[7:]
@@ -332,7 +422,7 @@ def result_used(ctx, db, rid, family, floor=8, only=None):
                             if ce.k in ('call', 'construct') and ce.get('callee_key') == f['key'] and idx is not None and idx < len(ce.get('args') or []):
                                 ncall += 1
                                 ap = ce['args'][idx].get('path')
-                                if any((b.get('cond') or {}).get('path') and ap in b['cond']['path'] for b in g['blocks']):
+                                if any((b.get('cond') or {}).get('path') and ap in b['cond']['path'] for b in g['blocks']) or _flag_tested(g, ap, after=ce.get('loc')):
                                     tested = True
                                 else:
                                     tested = tested and False
@@ -340,9 +430,38 @@ def result_used(ctx, db, rid, family, floor=8, only=None):
                     ok = ok and tested
                     how = 'stored in out-parameter %s, %s by the caller' % (tgt, 'tested' if ok else 'NOT tested')
                 else:
-                    ok = any((b.get('cond') or {}).get('path') and tgt in b['cond']['path'] for b in f['blocks'])
+                    ok = any((b.get('cond') or {}).get('path') and tgt in b['cond']['path'] for b in f['blocks']) or _flag_tested(f, tgt, after=e.get('loc'))
                     how = 'assigned to %s and %s' % (tgt, 'tested' if ok else 'never tested')
             ctx.ob(rid, f, e['loc'], ok, 'result of %s is used (%s)' % (norm(e['callee']).split('::', 1)[1], how), desc='result of %s discarded' % norm(e['callee']))
+
+
+def _flag_tested(g, flag, returned=False, after=None):
+    """is the boolean kept at `flag` (a local / parameter path of function g) branched on by g through a name of its own: a bool local
+    initialised or assigned from an expression over the flag (const bool resolved_already = !waiting; if (resolved_already) ...), to any depth.
+    With returned=True handing such a name back to the caller counts as well (the caller's use is judged at its own call site); with
+    after=<source location of the call that sets the flag> a name computed before that call does not count (it carries the stale value)"""
+    from ..core import _lc
+    def later(e):
+        return after is None or not _lc(after) or not _lc(e.get('loc')) or _lc(e['loc']) > _lc(after)
+    def is_bool(var):
+        return any(d.k == 'decl' and d.get('var') == var and (d.get('type') or '').replace('const ', '').strip() in ('_Bool', 'bool') for d in g.events())
+    names = {flag}
+    for _ in range(4):
+        grew = False
+        for e in g.events():
+            src = tgt = None
+            if e.k == 'decl' and e.get('init') and is_bool(e.get('var')):
+                src, tgt = e['init'], 'local:' + e['var']
+            elif e.k == 'write' and re.fullmatch(r'local:\w+', e.get('path') or '') and e.get('rhs') and (e.get('op') or '=') == '=' and is_bool(e['path'][6:]):
+                src, tgt = e['rhs'], e['path']
+            if src and tgt not in names and later(e) and any(_mentions(src, n) for n in names):
+                names.add(tgt); grew = True
+        if not grew:
+            break
+    carriers = names - {flag}
+    if any((b.get('cond') or {}).get('path') and any(_mentions(b['cond']['path'], n) for n in carriers) for b in g['blocks']):
+        return True
+    return returned and any(r.k == 'return' and any(_mentions(r.get('path') or '', n) for n in carriers) for r in g.events())
 
 
 def init_before_publish(ctx, db, summ, rid='C02.init-before-publish'):
@@ -390,12 +509,14 @@ def sync_waits(ctx, db, rid='C02.sync-waits'):
             for tr in trs:
                 # one wait = one ready test and at most one registration: for an awaitable whose ready test acquires (mutex::ready is the
                 # try-lock CAS) a second poll after the wake-up requests the lock again while the caller already owns it
-                nar = sum(1 for c in calls(tr) if norm(c.get('callee')) == 'cocls::co_awaiter::await_ready')
-                nsub = sum(1 for c in calls(tr) if norm(c.get('callee')) == 'cocls::co_awaiter::subscribe')
+                # (the awaiter's own await_ready() / subscribe() are one-line forwarders to the awaited object: the question may as well be put
+                # to the awaited object directly - what is counted, and whose answer must be tested, is the request that reaches _owner)
+                nar = sum(1 for c in calls(tr) if _asks_owner(c, 'await_ready', 'ready'))
+                nsub = sum(1 for c in calls(tr) if _asks_owner(c, 'subscribe', 'subscribe'))
                 if nar > 1 or nsub > 1:
                     bad = bad or ('the wait asks await_ready() %d times and registers %d times on one path: the protocol of an awaitable is one ready test and one registration per wait '
                                   '(a woken mutex waiter that polls again requests the lock it already owns and waits for itself)' % (nar, nsub), tr)
-                si = index_of(tr, lambda ev: ev.k == 'call' and norm(ev.get('callee')) in ('cocls::co_awaiter::subscribe',))
+                si = index_of(tr, lambda ev: _asks_owner(ev, 'subscribe', 'subscribe'))
                 if si < 0:
                     continue
                 reg = None
@@ -415,6 +536,19 @@ def sync_waits(ctx, db, rid='C02.sync-waits'):
             if nreg == 0 and not bad:
                 bad = ('no registered path', trs[0] if trs else [])
             ctx.ob(rid, f, f['key'], bad is None, 'blocks iff registered' + ('' if not bad else ' -- ' + bad[0]), desc=(bad[0] if bad else None), trace=fmt_trace(bad[1]) if bad else None)
+
+
+def _asks_owner(c, own, owners):
+    """is trace item c the request `own` of the generic awaiter as it reaches the awaited object: the call <awaited>.`owners`() on the
+    awaiter's _owner (made by the forwarder co_awaiter::`own` when that was expanded, or written out in the waiting function itself), or
+    the forwarder co_awaiter::`own` when it was not expanded"""
+    if c.k != 'call':
+        return False
+    n = norm(c.get('callee') or '')
+    if n == 'cocls::co_awaiter::' + own:
+        return not c.get('expanded')
+    fld = norm(c.get('field') or c.get('lfield') or '')
+    return n.endswith('::' + owners) and (fld == 'cocls::co_awaiter::_owner' or (not fld and re.search(r'^this(->|\.)_owner$', c.get('recv') or '') is not None))
 
 
 def ready_means_resolved(ctx, db):
